@@ -23,10 +23,16 @@ abbrev Tok := Bytes × Bytes
 
 def render (t : Tok) : Bytes := t.1 ++ 61 :: t.2
 
-def plainByte (b : Nat) : Bool := !(isLead b) && b != 59 && b != 61
+/-- the bytes with a meaning in the grammar: blank, `;`, `=` -/
+def sepByte (b : Nat) : Bool := b == 32 || b == 59 || b == 61
 
-def Plain (s : Bytes) : Prop := ∀ b ∈ s, plainByte b = true
+/-- a key or value of the grammar: free of blank, `;` and `=`, and neither beginning nor ending with
+    a white-space character (`strings.TrimSpace` leaves it alone).  Any other bytes are allowed —
+    UTF-8 text, invalid bytes, white space in the middle. -/
+def Plain (s : Bytes) : Prop := 32 ∉ s ∧ 59 ∉ s ∧ 61 ∉ s ∧ Clean s
 def PlainTok (t : Tok) : Prop := Plain t.1 ∧ Plain t.2
+
+instance (s : Bytes) : Decidable (Plain s) := by unfold Plain; infer_instance
 
 /-- a password token is masked -/
 def pwOK (t : Tok) : Prop := t.1 = kwPassword → t.2 = kwHash
@@ -36,16 +42,21 @@ def renderGrp (d : Nat) (g : List Tok) : Bytes := joinOn d (g.map render)
 /-- groups joined by `c`, tokens inside a group by `d` -/
 def renderAll (c d : Nat) (gs : List (List Tok)) : Bytes := joinOn c (gs.map (renderGrp d))
 
-theorem plain_noLead {s : Bytes} (h : Plain s) : ∀ b ∈ s, isLead b = false := by
-  intro b hb
-  have := h b hb
-  simp only [plainByte, Bool.and_eq_true, Bool.not_eq_true'] at this
-  exact this.1.1
+theorem plain_no (s : Bytes) (h : Plain s) (c : Nat) (hc : sepByte c = true) : c ∉ s := by
+  simp only [sepByte, Bool.or_eq_true, beq_iff_eq] at hc
+  rcases hc with (rfl | rfl) | rfl
+  · exact h.1
+  · exact h.2.1
+  · exact h.2.2.1
 
-theorem plain_no (s : Bytes) (h : Plain s) (c : Nat) (hc : plainByte c = false) : c ∉ s := by
-  intro hm; have := h c hm; rw [hc] at this; cases this
+theorem trim_plain {s : Bytes} (h : Plain s) : trim s = s := trim_clean s h.2.2.2
 
-theorem trim_plain {s : Bytes} (h : Plain s) : trim s = s := trim_noLead s (plain_noLead h)
+/-- text without white-space lead bytes, `;` and `=` is plain (the previous, narrower grammar) -/
+theorem plain_of_noLead (s : Bytes) (h : ∀ b ∈ s, isLead b = false ∧ b ≠ 59 ∧ b ≠ 61) : Plain s := by
+  refine ⟨?_, ?_, ?_, clean_noLead s (fun b hb => (h b hb).1)⟩
+  · intro hm; have := (h 32 hm).1; simp [isLead] at this
+  · intro hm; exact (h 59 hm).2.1 rfl
+  · intro hm; exact (h 61 hm).2.2 rfl
 
 theorem keyOf_render (t : Tok) (h : PlainTok t) : keyOf (render t) = t.1 := by
   unfold keyOf render
@@ -57,21 +68,10 @@ theorem valOf_render (t : Tok) (h : PlainTok t) : valOf (render t) = t.2 := by
   rw [toPair_kv _ _ (plain_no _ h.1 61 (by decide))]
   exact trim_plain h.2
 
-/-- bytes of a rendered token: plain or `=` -/
-theorem render_bytes (t : Tok) (h : PlainTok t) : ∀ b ∈ render t, plainByte b = true ∨ b = 61 := by
-  intro b hb
-  simp only [render, List.mem_append, List.mem_cons] at hb
-  rcases hb with hb | rfl | hb
-  · exact Or.inl (h.1 b hb)
-  · exact Or.inr rfl
-  · exact Or.inl (h.2 b hb)
-
-theorem render_nomem (t : Tok) (h : PlainTok t) (c : Nat) (hc : plainByte c = false) (h61 : c ≠ 61) :
+theorem render_nomem (t : Tok) (h : PlainTok t) (c : Nat) (hc : sepByte c = true) (h61 : c ≠ 61) :
     c ∉ render t := by
-  intro hm
-  rcases render_bytes t h c hm with h1 | h1
-  · rw [hc] at h1; cases h1
-  · exact h61 h1
+  simp only [render, List.mem_append, List.mem_cons, not_or]
+  exact ⟨plain_no _ h.1 c hc, h61, plain_no _ h.2 c hc⟩
 
 /-- the text after the first token of a group -/
 def tailStr (d : Nat) (r : List Tok) : Bytes := r.flatMap (fun u => d :: render u)
@@ -90,7 +90,7 @@ theorem renderGrp_cons_cons (d : Nat) (t u : Tok) (r : List Tok) :
   simp [renderGrp, joinOn]
 
 theorem renderGrp_nomem (d c : Nat) (g : List Tok) (hg : ∀ t ∈ g, PlainTok t)
-    (hc : plainByte c = false) (h61 : c ≠ 61) (hd : c ≠ d) : c ∉ renderGrp d g := by
+    (hc : sepByte c = true) (h61 : c ≠ 61) (hd : c ≠ d) : c ∉ renderGrp d g := by
   unfold renderGrp
   apply joinOn_nomem d c _ hd
   intro x hx
@@ -172,20 +172,55 @@ theorem map_repr {α β γ : Type} (f : α → β) (h : γ → β) (P : γ → P
 def GoodGrp (g : List Tok) : Prop := g ≠ [] ∧ ∀ t ∈ g, PlainTok t
 
 theorem kw_ne_nil : kwPassword ≠ [] := by decide
-theorem kwHash_plain : Plain kwHash := by unfold Plain; decide
-theorem kwPassword_plain : Plain kwPassword := by unfold Plain; decide
+theorem kwHash_plain : Plain kwHash := by decide
+theorem kwPassword_plain : Plain kwPassword := by decide
 
-theorem valStr59_noLead (t : Tok) (r : List Tok) (ht : PlainTok t) (hr : ∀ u ∈ r, PlainTok u) :
-    ∀ b ∈ valStr 59 t r, isLead b = false := by
-  rw [valStr_join]
-  apply joinOn_bytes 59 _ (fun b => isLead b = false) (by decide)
-  intro x hx b hb
-  rcases List.mem_cons.mp hx with rfl | hx
-  · exact plain_noLead ht.2 b hb
-  · obtain ⟨u, hu, rfl⟩ := List.mem_map.mp hx
-    rcases render_bytes u (hr u hu) b hb with h | rfl
-    · simp only [plainByte, Bool.and_eq_true, Bool.not_eq_true'] at h; exact h.1.1
-    · decide
+/-- the value of the last token of `t :: r` -/
+def lastVal : Tok → List Tok → Bytes
+  | t, [] => t.2
+  | _, u :: r => lastVal u r
+
+theorem lastVal_plain (t : Tok) (r : List Tok) (ht : PlainTok t) (hr : ∀ u ∈ r, PlainTok u) :
+    Plain (lastVal t r) := by
+  induction r generalizing t with
+  | nil => exact ht.2
+  | cons u r ih => exact ih u (hr u (by simp)) (fun v hv => hr v (by simp [hv]))
+
+/-- a value text with more than one token ends with `=` and the last value -/
+theorem valStr_end (d : Nat) (t : Tok) (r : List Tok) (hne : r ≠ []) :
+    ∃ Z, valStr d t r = Z ++ 61 :: lastVal t r := by
+  induction r generalizing t with
+  | nil => exact absurd rfl hne
+  | cons u r ih =>
+    cases r with
+    | nil => exact ⟨t.2 ++ d :: u.1, by simp [valStr, tailStr, render, lastVal]⟩
+    | cons u' r' =>
+      obtain ⟨Z, hZ⟩ := ih u (by simp)
+      refine ⟨t.2 ++ d :: u.1 ++ 61 :: Z, ?_⟩
+      have e : valStr d t (u :: u' :: r') = t.2 ++ d :: u.1 ++ 61 :: valStr d u (u' :: r') := by
+        simp [valStr, tailStr, render]
+      rw [e, hZ]; simp [lastVal]
+
+/-- TrimSpace does not touch the right end of a value text -/
+theorem valStr_right (d : Nat) (t : Tok) (r : List Tok) (ht : PlainTok t) (hr : ∀ u ∈ r, PlainTok u) :
+    dropOne (spaceSeqs.map List.reverse) (valStr d t r).reverse = none := by
+  cases r with
+  | nil => simpa [valStr, tailStr] using ht.2.2.2.2.2
+  | cons u r' =>
+    obtain ⟨Z, hZ⟩ := valStr_end d t (u :: r') (by simp)
+    rw [hZ, List.reverse_append, List.reverse_cons, List.append_assoc, List.singleton_append]
+    exact dropOne_append_sep _ _ _ 61 spaceSeqsRev_no61 (lastVal_plain t (u :: r') ht hr).2.2.2.2
+
+theorem trim_valStr59 (t : Tok) (r : List Tok) (ht : PlainTok t) (hr : ∀ u ∈ r, PlainTok u) :
+    trim (valStr 59 t r) = valStr 59 t r := by
+  apply trim_clean
+  refine ⟨?_, valStr_right 59 t r ht hr⟩
+  cases r with
+  | nil => simpa [valStr, tailStr] using ht.2.2.2.2.1
+  | cons u r' =>
+    have e : valStr 59 t (u :: r') = t.2 ++ 59 :: (render u ++ tailStr 59 r') := by simp [valStr, tailStr]
+    rw [e]
+    exact dropOne_append_sep _ _ _ 59 spaceSeqs_no59 ht.2.2.2.2.1
 
 theorem pass1 (gs : List (List Tok)) (hne : gs ≠ []) (hg : ∀ g ∈ gs, GoodGrp g) :
     ∃ gs' : List (List Tok), gs' ≠ [] ∧
@@ -230,8 +265,7 @@ theorem pass1 (gs : List (List Tok)) (hne : gs ≠ []) (hg : ∀ g ∈ gs, GoodG
           | cons t2 r2 =>
             have ht2 := g2pl t2 (by simp)
             rw [keyOf_grp 59 t2 r2 ht2] at huk
-            rw [hlv, valOf_grp 59 t2 r2 ht2,
-              trim_noLead _ (valStr59_noLead t2 r2 ht2 (fun u hu => g2pl u (by simp [hu])))]
+            rw [hlv, valOf_grp 59 t2 r2 ht2, trim_valStr59 t2 r2 ht2 (fun u hu => g2pl u (by simp [hu]))]
             refine ⟨t2 :: r2, by rw [renderGrp_kv, huk], ⟨g2ne, g2pl⟩, ?_⟩
             intro t' ht'; simp at ht'; subst ht'
             intro h; rw [huk] at h; exact absurd h hpw
@@ -337,19 +371,6 @@ def leakOK (p : Bytes) : Prop := keyOf p = kwPassword → valOf p = kwHash
 theorem leakOK_render (u : Tok) (hu : PlainTok u) (hok : pwOK u) : leakOK (render u) := by
   unfold leakOK; rw [keyOf_render u hu, valOf_render u hu]; exact hok
 
-theorem valStr32_bytes (t : Tok) (r : List Tok) (ht : PlainTok t) (hr : ∀ u ∈ r, PlainTok u) :
-    ∀ b ∈ valStr 32 t r, b = 32 ∨ isLead b = false := by
-  rw [valStr_join]
-  apply joinOn_bytes 32 _ (fun b => b = 32 ∨ isLead b = false) (Or.inl rfl)
-  intro x hx b hb
-  right
-  rcases List.mem_cons.mp hx with rfl | hx
-  · exact plain_noLead ht.2 b hb
-  · obtain ⟨u, hu, rfl⟩ := List.mem_map.mp hx
-    rcases render_bytes u (hr u hu) b hb with h | rfl
-    · simp only [plainByte, Bool.and_eq_true, Bool.not_eq_true'] at h; exact h.1.1
-    · decide
-
 theorem valStr32_no59 (t : Tok) (r : List Tok) (ht : PlainTok t) (hr : ∀ u ∈ r, PlainTok u) :
     59 ∉ valStr 32 t r := by
   rw [valStr_join]
@@ -360,11 +381,6 @@ theorem valStr32_no59 (t : Tok) (r : List Tok) (ht : PlainTok t) (hr : ∀ u ∈
   · obtain ⟨u, hu, rfl⟩ := List.mem_map.mp hx
     exact render_nomem u (hr u hu) 59 (by decide) (by decide)
 
-theorem mem_trim_blank (s : Bytes) (hs : ∀ b ∈ s, b = 32 ∨ isLead b = false) :
-    ∀ b ∈ trim s, b ∈ s := by
-  obtain ⟨w1, w2, _, _, e⟩ := trim_blank s hs
-  intro b hb; rw [e]; simp [hb]
-
 theorem splitOn32_valStr (t : Tok) (r : List Tok) (ht : PlainTok t) (hr : ∀ u ∈ r, PlainTok u) :
     splitOn 32 (valStr 32 t r) = t.2 :: r.map render := by
   rw [valStr_join]
@@ -374,6 +390,56 @@ theorem splitOn32_valStr (t : Tok) (r : List Tok) (ht : PlainTok t) (hr : ∀ u 
   · exact plain_no _ ht.2 32 (by decide)
   · obtain ⟨u, hu, rfl⟩ := List.mem_map.mp hx
     exact render_nomem u (hr u hu) 32 (by decide) (by decide)
+
+/-- TrimSpace of a blank-joined value text: only a leading blank (left by an empty first value) goes -/
+theorem trim_valStr32 (t : Tok) (r : List Tok) (ht : PlainTok t) (hr : ∀ u ∈ r, PlainTok u) :
+    trim (valStr 32 t r) = if t.2 = [] ∧ r ≠ [] then renderGrp 32 r else valStr 32 t r := by
+  cases r with
+  | nil =>
+    simp only [ne_eq, not_true_eq_false, and_false, if_false]
+    exact trim_clean _ ⟨by simpa [valStr, tailStr] using ht.2.2.2.2.1, valStr_right 32 t [] ht hr⟩
+  | cons u r' =>
+    have hu := hr u (by simp)
+    have hr' : ∀ v ∈ r', PlainTok v := fun v hv => hr v (by simp [hv])
+    have e : valStr 32 t (u :: r') = t.2 ++ 32 :: renderGrp 32 (u :: r') := by
+      rw [renderGrp_cons]; simp [valStr, tailStr]
+    by_cases h2 : t.2 = []
+    · have hc : t.2 = [] ∧ u :: r' ≠ [] := ⟨h2, by simp⟩
+      rw [if_pos hc]
+      unfold trim
+      have hY : dropOne spaceSeqs (renderGrp 32 (u :: r')) = none := by
+        rw [renderGrp_kv]
+        exact dropOne_append_sep _ _ _ 61 spaceSeqs_no61 hu.1.2.2.2.1
+      have hR : dropOne (spaceSeqs.map List.reverse) (renderGrp 32 (u :: r')).reverse = none := by
+        have := valStr_right 32 t (u :: r') ht hr
+        rw [e, h2, List.nil_append, List.reverse_cons] at this
+        -- the right end of `" " ++ Y` is the right end of `Y`
+        rw [dropOne_none_iff] at this ⊢
+        intro q hq
+        cases hp : q.isPrefixOf (renderGrp 32 (u :: r')).reverse
+        · rfl
+        · have := this q hq
+          have hpre : q.isPrefixOf ((renderGrp 32 (u :: r')).reverse ++ [32]) = true := by
+            have : ∀ (q a b : Bytes), q.isPrefixOf a = true → q.isPrefixOf (a ++ b) = true := by
+              intro q
+              induction q with
+              | nil => intros; rfl
+              | cons x q ih =>
+                intro a b h
+                cases a with
+                | nil => simp [List.isPrefixOf] at h
+                | cons y a =>
+                  simp only [List.isPrefixOf, Bool.and_eq_true, beq_iff_eq] at h
+                  simp [List.isPrefixOf, h.1, ih a b h.2]
+            exact this _ _ _ hp
+          rw [hpre] at this; cases this
+      rw [e, h2, List.nil_append, trimLeft_blank _ hY, trimRight_of_none _ hR]
+    · have hc : ¬ (t.2 = [] ∧ u :: r' ≠ []) := fun h => h2 h.1
+      rw [if_neg hc]
+      apply trim_clean
+      refine ⟨?_, valStr_right 32 t (u :: r') ht hr⟩
+      rw [e]
+      exact dropOne_append_blank _ _ _ spaceSeqs_blank32 h2 ht.2.2.2.2.1
 
 /-- what pass 2 makes of one run: free of `;`, and every blank-separated piece is harmless -/
 theorem pass2_run (runs : List (List Tok)) (hruns : ∀ run ∈ runs, GoodRun run)
@@ -428,12 +494,25 @@ theorem pass2_run (runs : List (List Tok)) (hruns : ∀ run ∈ runs, GoodRun ru
           have ht2 := r2pl t2 (by simp)
           have hr2 : ∀ u ∈ r2, PlainTok u := fun u hu => r2pl u (by simp [hu])
           rw [hlv, valOf_grp 32 t2 r2 ht2]
-          have hX := valStr32_bytes t2 r2 ht2 hr2
+          have htrim := trim_valStr32 t2 r2 ht2 hr2
+          -- what is left of the value text after TrimSpace: free of `;`, pieces among those of the text
+          have h59 : 59 ∉ trim (valStr 32 t2 r2) := by
+            rw [htrim]; split
+            · exact renderGrp_nomem 32 59 r2 hr2 (by decide) (by decide) (by decide)
+            · exact valStr32_no59 t2 r2 ht2 hr2
+          have hpieces : ∀ p ∈ splitOn 32 (trim (valStr 32 t2 r2)), p ∈ t2.2 :: r2.map render := by
+            rw [htrim]; split
+            · rename_i hc
+              have : splitOn 32 (renderGrp 32 r2) = r2.map render := by
+                apply splitOn_joinOn 32 _ (by simpa using hc.2)
+                intro x hx
+                obtain ⟨u, hu, rfl⟩ := List.mem_map.mp hx
+                exact render_nomem u (hr2 u hu) 32 (by decide) (by decide)
+              rw [this]; intro p hp; exact List.mem_cons_of_mem _ hp
+            · rw [splitOn32_valStr t2 r2 ht2 hr2]; intro p hp; exact hp
           constructor
           · simp only [List.mem_append, List.mem_cons, not_or]
-            refine ⟨plain_no _ ht.1 59 (by decide), by decide, ?_⟩
-            intro hm
-            exact valStr32_no59 t2 r2 ht2 hr2 (mem_trim_blank _ hX 59 hm)
+            exact ⟨plain_no _ ht.1 59 (by decide), by decide, h59⟩
           · have h32 : 32 ∉ t.1 ++ [61] := by
               simp only [List.mem_append, List.mem_singleton, not_or]
               exact ⟨plain_no _ ht.1 32 (by decide), by decide⟩
@@ -457,8 +536,7 @@ theorem pass2_run (runs : List (List Tok)) (hruns : ∀ run ∈ runs, GoodRun ru
                 rw [this] at hkp; exact absurd hkp hpw
               · -- the other pieces are pieces of the value text of `run2`
                 have hp2 : p ∈ splitOn 32 (trim (valStr 32 t2 r2)) := by rw [hsp]; simp [hp]
-                have hp3 := splitOn_trim_blank _ hX p hp2
-                rw [splitOn32_valStr t2 r2 ht2 hr2] at hp3
+                have hp3 := hpieces p hp2
                 rcases List.mem_cons.mp hp3 with rfl | hp3
                 · unfold leakOK keyOf
                   rw [toPair_noEq _ (plain_no _ ht2.2 61 (by decide))]
